@@ -173,8 +173,9 @@ def run(
         m = _RE_INV.search(out) or _RE_ACTPROP.search(out)
         if m:
             res.violated = m.group(1)
-        elif "Temporal properties were violated" in out:
-            res.violated = "<temporal>"
+        elif re.search(r"Temporal propert(y|ies) .*violated", out):
+            mm = re.search(r"Temporal property (\S+) was violated", out)
+            res.violated = mm.group(1) if mm else "<temporal>"
         elif "Deadlock reached" in out:
             res.violated = "<deadlock>"
         elif "is violated" in out and "Error:" in out:
